@@ -61,6 +61,11 @@ def Script.faulty (s : Script) (ev : Ev) (occ : Nat) : Bool :=
 /-- The same script without fault injections. -/
 def Script.noFaults (s : Script) : Script := { conds := s.conds, fails := [] }
 
+/-- In the trace `t` (oldest first) no scripted fault fires at any event after the initial part
+`base`: the `n`-th earlier occurrence count of an event is the number of its occurrences before it. -/
+def Script.quietAfter (s : Script) (base t : List Ev) : Prop :=
+  ∀ pre e post, t = pre ++ e :: post → base <+: pre → s.faulty e (pre.count e) = false
+
 /-! ### Scoped registry (`StateRegistry`: a map plus an owned parent) -/
 
 abbrev Scope := List (Nat × Nat)
